@@ -13,7 +13,7 @@ pub fn prop() -> Prop {
     Prop {
         id: "C16",
         level: "exploration",
-        rule: "helices with centre within +-3 m, radius 0.03..5 m, any phase, pitch from {0, +-5e-324, +-1e-310, +-1e-17 .. +-1e2 (log-uniform and listed specials incl. values next to f64::EPSILON and the e=1 resonance h = 2 pi sqrt(r R))}; points in the drift volume and points within 1 cm of the helix (z offset scaled to the pitch). Helix::closest_t (hook, 20 iterations, tolerance EPSILON as in production) must return t in [-pi, pi], not NaN; an interior t is compared with a brute-force global minimum (dense grid adapted to the pitch + ternary refinement, distances evaluated with the library's Helix::at). Hook-free part: t_inner/t_outer and VertexInfo.tracks[i].1 of fitted tracks against Track::at. Non-trivial = distinct (helix, point) cases with an interior result. Also: exact special geometry (point on the helix axis, opposite the t = 0 point in the plane z = z0, on the curve, half a pitch away), phases of many turns, points beyond the ends of the revolution, Kepler resonance e = 1. Round 4: tracks fitted (library fit through the cluster hook) to curlers that stay inside the drift volume and miss a window of their hits around the farthest / nearest point, to helices of special pitch and to physical tracks: t_inner / t_outer in range always, and minimal when the end points are unambiguous and the helix is inside the stated ranges. Round 6: pitches on either side of powers of f64::EPSILON, on-axis points up to 1.2 m from the plane of the turn; clusters of 513..2049 hits. Fitted tracks whose helix lies outside the quantified ranges (radius 0.03..5 m, centre within 3 m) are held to the range / NaN clause only. Round 8: points 1e-12 .. 1e-4 m off the helix axis.",
+        rule: "helices with centre within +-3 m, radius 0.03..5 m, any phase, pitch from {0, +-5e-324, +-1e-310, +-1e-17 .. +-1e2 (log-uniform and listed specials incl. values next to f64::EPSILON and the e=1 resonance h = 2 pi sqrt(r R))}; points in the drift volume and points within 1 cm of the helix (z offset scaled to the pitch). Helix::closest_t (hook, 20 iterations, tolerance EPSILON as in production) must return t in [-pi, pi], not NaN; an interior t is compared with a brute-force global minimum (dense grid adapted to the pitch + ternary refinement, distances evaluated with the library's Helix::at). Hook-free part: t_inner/t_outer and VertexInfo.tracks[i].1 of fitted tracks against Track::at. Non-trivial = distinct (helix, point) cases with an interior result. Also: exact special geometry (point on the helix axis, opposite the t = 0 point in the plane z = z0, on the curve, half a pitch away), phases of many turns, points beyond the ends of the revolution, Kepler resonance e = 1. Round 4: tracks fitted (library fit through the cluster hook) to curlers that stay inside the drift volume and miss a window of their hits around the farthest / nearest point, to helices of special pitch and to physical tracks: t_inner / t_outer in range always, and minimal when the end points are unambiguous and the helix is inside the stated ranges. Round 6: pitches on either side of powers of f64::EPSILON, on-axis points up to 1.2 m from the plane of the turn; clusters of 513..2049 hits. Fitted tracks whose helix lies outside the quantified ranges (radius 0.03..5 m, centre within 3 m) are held to the range / NaN clause only. Round 8: points 1e-12 .. 1e-4 m off the helix axis. Round 9: points diametrically opposite the helix point of equal height with eccentricity within 2e-3 of 1.",
         assumptions: &["distance evaluated with the library's own Helix::at: only the minimisation is judged", "the grid (>= 20001 points, denser for large pitch) resolves the at most two local minima per revolution"],
         profiles: both,
         shards: shards16,
